@@ -46,6 +46,14 @@ def check(ctx):
     ctx.assume(POSITIVE)
     ctx.assume("float rounding of the implementation is out of scope: literals are read exactly from their source text")
 
+    # the source-level clauses first (numpy's masked-assignment helpers, np.vectorize): what they find stands even where
+    # a rewritten function leaves the fragment the term rules below can interpret
+    from .dtypes import check_masked_calls
+
+    check_masked_calls(ctx, "C13-h", ["bluebonnet.fluids.oil", "bluebonnet.fluids.water", "bluebonnet.fluids.fluid"])
+    from .dtypes import check_vectorize
+
+    check_vectorize(ctx, "C13-g", ["bluebonnet.fluids.oil", "bluebonnet.fluids.water"])
     # ---- C13-a water
     par = only(run(ctx, WATER + "b_water_McCain"), "b_water_McCain", ctx, "C13-a")
     der = only(run(ctx, WATER + "b_water_McCain_dp"), "b_water_McCain_dp", ctx, "C13-a")
@@ -226,12 +234,6 @@ def check(ctx):
             "for a non-scalar pressure the function returns the same term as for a scalar (entry by entry the exact derivative of the parent)",
             signature="array branch differs", array_only=[nf.show(p_.value.nf, 200) if isinstance(p_.value, Num) else str(p_.value)[:200] for p_ in odd[:2]],
         )
-    from .dtypes import check_masked_calls
-
-    check_masked_calls(ctx, "C13-h", ["bluebonnet.fluids.oil", "bluebonnet.fluids.water", "bluebonnet.fluids.fluid"])
-    from .dtypes import check_vectorize
-
-    check_vectorize(ctx, "C13-g", ["bluebonnet.fluids.oil", "bluebonnet.fluids.water"])
     # ---- C13-k: "at every input" includes integer pressure arrays and pressure arrays of any shape: the parents and the
     # derivative functions form no integer-typed intermediate that can leave the int32 range (numpy wraps silently, the
     # derivative function - or the scalar call - does not), and the parent of the GOR derivative fills its array
